@@ -38,6 +38,12 @@ pipe_destroy(void *arg)
 {
 	nni_pipe *p = arg;
 
+#ifdef NNG_ENABLE_STATS
+	// The starter may have registered the statistics after the
+	// reaper already unregistered them (pipe closed while starting).
+	nni_stat_unregister(&p->st_root);
+#endif
+
 	p->p_proto_ops.pipe_fini(p->p_proto_data);
 	p->p_tran_ops.p_fini(p->p_tran_data);
 
